@@ -160,3 +160,4 @@ class C15(C06):
 
 
 P = C15()
+P.RULE = P.RULE + ' In half of the cold, unpooled cases the first request of every thread is a custom value of a COUNTING formatter kind (`cnt` tags: per-instance state; the numbers handed out per tag must be consecutive). In 30 % of the duo cases the two bundles share a language (pt / pt-PT / pt-BR, numbers 0, 1, 1.0) and the second bundle, created while the first is alive, is compared with a single-thread bundle of its own locale.'
